@@ -33,6 +33,10 @@ pub mod c20;
 #[cfg(kani)]
 pub mod c21;
 #[cfg(kani)]
+pub mod c23;
+#[cfg(kani)]
 pub mod c24;
+#[cfg(kani)]
+pub mod c25;
 #[cfg(all(kani, test))]
 mod playback_gen;
